@@ -279,7 +279,12 @@ def full_decaps_callers(ctx):
             ctx.bad(body.key, 'try_decaps(K2)', 'cannot decode the arguments of the opening closure call at line %d' % c.ln, c.where())
             continue
         ops = d.rv['ops']
-        k2 = k2_kind(F, body, ops[2]) if len(ops) > 2 else 'unknown'
+        # K2 is the Option<Secret> argument, wherever it stands in the parameter list
+        def _is_opt(o):
+            ty = body.local_ty(op_local(o)) if is_place(o) else (o.get('c') or {}).get('ty', '')
+            return ty.startswith('std::option::Option<')
+        k2ops = [o for o in ops if _is_opt(o)]
+        k2 = k2_kind(F, body, k2ops[0]) if len(k2ops) == 1 else 'unknown'
         sl = backward_slice(body, [ops[-1]], follow_mutarg=False)
         hyb = any('@HEncs' in '.'.join(map(str, field_path(p))) for p in sl.places)
         want = 'Some(kem)' if hyb else 'None'
